@@ -84,3 +84,27 @@ pub proof fn lemma_marker_arg(qs: Seq<Comp>)
     assert(rel(marker_comps(qs)) =~= full.skip(1));
     assert(full.skip(1) =~= ".whiteout/"@ + q.subrange(1, q.len() as int) + "_wo"@);
 }
+
+/// components of the whiteout folder of q = render(qs): [".whiteout"] + qs; its relative form is the argument OverlayFS::read_dir joins
+pub proof fn lemma_wo_folder(qs: Seq<Comp>)
+    requires all_names(qs)
+    ensures all_names(seq![wo_dir_name()] + qs),
+            render(seq![wo_dir_name()] + qs) == "/.whiteout"@ + render(qs),
+            rel(seq![wo_dir_name()] + qs) == ".whiteout"@ + render(qs),
+{
+    lemma_wo_names();
+    reveal_strlit("/.whiteout"); reveal_strlit(".whiteout");
+    let a = seq![wo_dir_name()];
+    assert forall|i: int| 0 <= i < (a + qs).len() implies is_name(#[trigger] (a + qs)[i]) by {
+        if i == 0 { assert((a + qs)[0] == wo_dir_name()); } else { assert((a + qs)[i] == qs[i - 1]); }
+    }
+    lemma_render_concat(a, qs);
+    assert(a.drop_last() =~= Seq::<Comp>::empty());
+    assert(render(Seq::<Comp>::empty()) =~= Seq::<char>::empty());
+    assert(a.last() == wo_dir_name());
+    assert(render(a) == render(a.drop_last()) + seq!['/'] + a.last());
+    assert(render(a) =~= seq!['/'] + wo_dir_name());
+    assert("/.whiteout"@ =~= seq!['/'] + ".whiteout"@);
+    assert(render(a + qs) =~= "/.whiteout"@ + render(qs));
+    assert(rel(a + qs) =~= ".whiteout"@ + render(qs));
+}
